@@ -21,6 +21,7 @@ type writeEvent struct {
 // accepts keep bytes and fails; afterwards every call fails (sticky).
 type faultWriter struct {
 	failAt, keep int
+	err          error // what the failing calls return
 	calls        int
 	log          []writeEvent
 	acc          bytes.Buffer
@@ -45,7 +46,7 @@ func (w *faultWriter) Write(b []byte) (int, error) {
 		}
 		w.acc.Write(b[:n])
 		w.log = append(w.log, writeEvent{cp, n, true})
-		return n, errWriter
+		return n, w.err
 	}
 	w.acc.Write(b)
 	w.log = append(w.log, writeEvent{cp, len(b), false})
@@ -54,10 +55,14 @@ func (w *faultWriter) Write(b []byte) (int, error) {
 
 var _ io.Writer = (*faultWriter)(nil)
 
-func carries(err liquid.SourceError) bool {
+// the errors a failing writer hands out: the harness's own, and the ones the io package itself uses (a writer that
+// accepted part of the data says io.ErrShortWrite - io.MultiWriter does; a closed pipe; an end of file)
+var writerErrors = []error{errWriter, io.ErrShortWrite, io.ErrClosedPipe, io.EOF}
+
+func carries(err liquid.SourceError, want error) bool {
 	var e error = err
 	for i := 0; i < 20 && e != nil; i++ {
-		if e == errWriter || errors.Is(e, errWriter) {
+		if e == want || errors.Is(e, want) {
 			return true
 		}
 		c, ok := e.(interface{ Cause() error })
@@ -80,7 +85,8 @@ func runFault(c J) J {
 	defer rs.cleanup()
 	obs["text"] = rs.src
 	one := func(entry string, failAt, keep int) (J, *faultWriter) {
-		w := &faultWriter{failAt: failAt, keep: keep}
+		we := writerErrors[(failAt+keep%5+len(entry))%len(writerErrors)]
+		w := &faultWriter{failAt: failAt, keep: keep, err: we}
 		res := guard(func() result {
 			var serr liquid.SourceError
 			switch entry {
@@ -95,7 +101,7 @@ func runFault(c J) J {
 			}
 			if serr != nil {
 				r := errResult("render", serr, rs.root)
-				r.HasCause = carries(serr)
+				r.HasCause = carries(serr, we)
 				return r
 			}
 			return result{Outcome: "ok"}
